@@ -218,13 +218,17 @@ fn build(len: usize, c: &Ctor) -> Result<Box<dyn Hist>, String> {
 impl HScenario {
     fn generate(&self, seed: u64, tier: Tier) -> HTrace {
         let mut rng = Rng::new(seed);
-        let len = match rng.below(12) {
+        let len = match rng.below(16) {
             0..=1 => 1,
             2..=3 => 2,
             4..=5 => 3,
             6..=7 => 4,
             8..=9 => 10,
-            _ => 100,
+            10..=11 => 100,
+            12 => 7,
+            13 => 8,
+            14 => 64,
+            _ => 256,
         };
         let n_ctors = if rng.chance(0.6) { 1 } else { 2 };
         let mut ctors: Vec<Ctor> = (0..n_ctors).map(|_| gen_ctor(&mut rng, len)).collect();
@@ -241,8 +245,29 @@ impl HScenario {
                     ctors[1] = Ctor::Ranges(e.iter().map(|x| x.to_bits()).collect());
                     e[j] = -e[j];
                 }
+                if e.len() >= 2 && rng.chance(0.3) {
+                    // the same bit flipped in two edges (differences that cancel in a checksum)
+                    let m = 1u64 << (44 + rng.below(8));
+                    let (i1, i2) = (rng.usize(e.len()), rng.usize(e.len()));
+                    if i1 != i2 {
+                        let mut f = e.clone();
+                        f[i1] = f64::from_bits(f[i1].to_bits() ^ m);
+                        f[i2] = f64::from_bits(f[i2].to_bits() ^ m);
+                        if f.iter().all(|x| !x.is_nan()) && f.windows(2).all(|w| w[0] <= w[1]) {
+                            ctors[1] = Ctor::Ranges(f.iter().map(|x| x.to_bits()).collect());
+                        }
+                    }
+                }
+                let variant_chosen = ctors[1] != ctors[0] && matches!(&ctors[1], Ctor::Ranges(r) if r.len() == e.len()) && {
+                    // one of the two variants above produced a sibling of ctors[0]
+                    if let (Ctor::Ranges(a), Ctor::Ranges(b2)) = (&ctors[0], &ctors[1]) {
+                        a.iter().zip(b2.iter()).filter(|(x, y)| x != y).count() <= 2
+                    } else {
+                        false
+                    }
+                };
                 let cand = if rng.chance(0.5) { next_up(e[i]) } else { next_down(e[i]) };
-                let ok = (i == 0 || e[i - 1] <= cand) && (i + 1 >= e.len() || cand <= e[i + 1]);
+                let ok = !variant_chosen && (i == 0 || e[i - 1] <= cand) && (i + 1 >= e.len() || cand <= e[i + 1]);
                 if ok {
                     e[i] = cand;
                     ctors[1] = Ctor::Ranges(e.iter().map(|x| x.to_bits()).collect());
@@ -1035,7 +1060,7 @@ impl Scenario for HScenario {
     }
     fn rule(&self) -> String {
         format!(
-            "{}: one run = a cluster of 1..4 histograms (LEN in {{1,2,3,4,10,100}}, edge vectors from a lattice with -inf/+inf/repeats, with_const_width or random) driven by a seeded operation schedule (add of edge/neighbour/midpoint/inf/NaN samples, merge, +=, *=, reset, clone, serde migrate, mismatched-edge panics) against a count-vector model; distinct = distinct (constructors, node map, operation list); non-trivial = at least two operations",
+            "{}: one run = a cluster of 1..4 histograms (LEN in {{1,2,3,4,7,8,10,64,100,256}}, edge vectors from a lattice with -inf/+inf/repeats, with_const_width or random) driven by a seeded operation schedule (add of edge/neighbour/midpoint/inf/NaN samples, merge, +=, *=, reset, clone, serde migrate, mismatched-edge panics) against a count-vector model; distinct = distinct (constructors, node map, operation list); non-trivial = at least two operations",
             self.prop.scen_name()
         )
     }
